@@ -508,7 +508,8 @@ class C12(PropertyCheck):
     n_search = 3000
     rule = ("random histories (8..45 operations) over <=4 test-case chromosomes and <=3 suite chromosomes: real "
             "mutate / relative crossover / direct cross_over(other, p1, p2) with boundary positions (0, size-1, size, "
-            "size+1) and empty chromosomes / clone / add-delete-set member / add function / invalidate / the five "
+            "size+1) and empty chromosomes / clone / add-delete-set member (clones) / add or set a member OBJECT a second "
+            "time (one chromosome at several positions of a suite) / add function / invalidate / the five "
             "getters (fitness values: whole numbers, quarters and k*2**-60) on "
             "chromosomes, suites and suite members, functions queried in random order, registered-only histories "
             "(85%) and histories with unregistered per-function queries (15%); non-trivial = distinct history with "
@@ -517,8 +518,9 @@ class C12(PropertyCheck):
     assumptions = [
         "fitness / coverage functions are deterministic functions of the execution results and go through "
         "_run_test_case_chromosome / _run_test_suite_chromosome; compute_is_covered agrees with fitness == 0 (C10)",
-        "suite members are owned by their suite (the histories insert clones; a member is never mutated behind "
-        "its suite's back); set_fitness_values / set_coverage_values and direct compute_* calls are not part of "
+        "suite member objects are owned by ONE suite (a suite may hold the same object at several positions, but "
+        "objects are not shared between two suites or with the free test-case chromosomes; a member is never mutated "
+        "behind its suite's back); set_fitness_values / set_coverage_values and direct compute_* calls are not part of "
         "a history",
         "a query for a function that was never registered is outside the contract (KeyError is accepted, and after "
         "such a query only per-function results are judged)",
@@ -528,7 +530,8 @@ class C12(PropertyCheck):
         "clone}, _run_test_case_chromosome, _run_test_suite_chromosome, TestCaseMutation.mutate, "
         "TestSuiteMutation.mutate, splice_test_case_chromosomes, splice_test_suite_chromosomes, "
         "SinglePointRelativeCrossOver.cross_over, TestCaseChromosome.cross_over / TestSuiteChromosome.cross_over with "
-        "arbitrary positions, TestSuiteChromosome.{add,delete,set}_test_case_chromosome; fitness values are exact "
+        "arbitrary positions, TestSuiteChromosome.{add,delete,set}_test_case_chromosome with new objects and with objects "
+        "that already are members (Suite.objs / Suite.order: references, not values); fitness values are exact "
         "multiples of 2**-60 (math.isclose(v, 0.0) with default tolerances = isCloseZero)",
         "the test factory's statement edits are not modelled: the model receives their observed effect (content "
         "identifiers after each sub-step, returned flags); hypothesis `honest` = a sub-step that returns False left "
@@ -561,8 +564,12 @@ class C12(PropertyCheck):
             return {"m": rng.choice(["zero", "size", "size-1", "size+1", "rand", "rand"]), "v": rng.randrange(64)}
 
         kinds = ["newTc", "cloneTc", "mutTc", "xTc", "newSuite", "cloneSu", "addTest", "delTest", "setTest", "mutSu",
-                 "xSu", "addFit", "addCov", "inval", "q", "xTcD", "xSuD"]
-        weights = [2, 2, 8, 4, 1, 2, 4, 1, 1, 7, 3, 5, 4, 1, 24, 2, 4]
+                 "xSu", "addFit", "addCov", "inval", "q", "xTcD", "xSuD", "addAlias", "setAlias"]
+        weights = [2, 2, 8, 4, 1, 2, 4, 1, 1, 7, 3, 5, 4, 1, 24, 2, 4, 3, 1]
+        if rng.random() < 0.35:     # the first suite holds one of its member OBJECTS twice from the start,
+            plan.append({"k": "addAlias", "s": 0, "m": rng.randrange(4)})      # often followed by a further new test
+            if rng.random() < 0.6:
+                plan.append({"k": "addTest", "s": 0, "i": rng.randrange(2)})
         if rng.random() < 0.8:      # the first suite usually has functions from the start
             plan.append({"k": "addFit", "ref": ["su", 0], "f": rng.randrange(N_FUNCS)})
             plan.append({"k": rng.choice(["addFit", "addCov"]), "ref": ["su", 0], "f": rng.randrange(N_FUNCS)})
@@ -574,7 +581,7 @@ class C12(PropertyCheck):
 
         targets = {"mutTc": ("tc", "i"), "xTc": ("tc", "a"), "xTcD": ("tc", "a"), "mutSu": ("su", "s"),
                    "xSu": ("su", "a"), "xSuD": ("su", "a"), "addTest": ("su", "s"), "delTest": ("su", "s"),
-                   "setTest": ("su", "s")}
+                   "setTest": ("su", "s"), "addAlias": ("su", "s"), "setAlias": ("su", "s")}
         for _ in range(n):
             k = rng.choices(kinds, weights)[0]
             a, b, c = rng.randrange(64), rng.randrange(64), rng.randrange(64)
@@ -600,6 +607,10 @@ class C12(PropertyCheck):
                 plan.append({"k": k, "s": a, "m": b})
             elif k == "setTest":
                 plan.append({"k": k, "s": a, "m": b, "i": c})
+            elif k == "addAlias":
+                plan.append({"k": k, "s": a, "m": b})
+            elif k == "setAlias":
+                plan.append({"k": k, "s": a, "m": b, "j": c})
             elif k == "mutSu":
                 plan.append({"k": k, "s": a, "new": [new_tc() for _ in range(3)]})
             elif k in ("addFit", "addCov"):
@@ -781,6 +792,29 @@ class C12(PropertyCheck):
                 op = {"setTest": {"s": s, "k": m, "i": i}}
             _clear_cause(su)
             emit(op, [("su", s)])
+        elif k in ("addAlias", "setAlias"):
+            # the member OBJECT of position m once more (no clone): one chromosome at two positions of the suite
+            if not nsu:
+                return
+            s = p["s"] % nsu
+            su = st.suites[s]
+            if not su.size():
+                return
+            m = p["m"] % su.size()
+            if k == "addAlias":
+                if su.size() >= MAX_MEMBERS:
+                    return
+                su.add_test_case_chromosome(su.get_test_case_chromosome(m))
+                op = {"addAlias": {"s": s, "k": m}}
+            else:
+                j = p["j"] % su.size()
+                su.set_test_case_chromosome(m, su.get_test_case_chromosome(j))
+                op = {"setAlias": {"s": s, "k": m, "j": j}}
+            ms = su.test_case_chromosomes
+            if len({id(t) for t in ms}) < len(ms):
+                self.count("alias:suite-holds-an-object-twice")
+            _clear_cause(su)
+            emit(op, [("su", s)])
         elif k == "delTest":
             if not nsu:
                 return
@@ -812,11 +846,23 @@ class C12(PropertyCheck):
                 su.mutate()
             finally:
                 recs, st.recs = st.recs, None
-            by_id = {id(ch): eff for ch, eff in recs}
+            # mutate() is called position by position: an object that sits at two positions may be mutated twice
+            per, nxt = [], 0
+            for t in members:
+                if nxt < len(recs) and recs[nxt][0] is t:
+                    per.append(recs[nxt][1])
+                    nxt += 1
+                else:
+                    per.append(None)
+            assert nxt == len(recs), (nxt, len(recs))
+            if len({id(t) for t in members}) < len(members):
+                self.count("mutateSuite:on-suite-with-shared-object")
+                if len({id(ch) for ch, _ in recs}) < len(recs):
+                    self.count("mutateSuite:shared-object-mutated-twice")
             for ch, eff in recs:
                 if id(ch) in mbefore:
                     self._note_mutation(st, ch, mbefore[id(ch)], eff)
-            per = [by_id.get(id(t)) for t in members]
+                    mbefore[id(ch)] = (_eff_final(eff, mbefore[id(ch)][0]), None)
             added = fac.end()
             after = [st.cid(t.test_case) for t in su.test_case_chromosomes]
             self.count("mutateSuite:members-mutated", sum(1 for x in per if x is not None))
@@ -1010,6 +1056,10 @@ class C12(PropertyCheck):
         if was_changed and st.executions > execs:
             st.flags.add("recomputed")
         self.count("query:" + q + (":unregistered" if not registered else ""))
+        if level == "su":
+            ms = ch.test_case_chromosomes
+            if len({id(t) for t in ms}) < len(ms):
+                self.count("query:on-suite-with-shared-object" + (":had-to-run" if st.executions > execs else ""))
         self.count("query-path:" + ("changed" if was_changed else ("hit" if hit else "fill")))
         if q in ("fitness", "fitnessFor", "isCovered") and "err" not in out:
             vals = [_units(v) for g, v in cc._fitness_cache.items() if fobj is None or g is fobj]
@@ -1157,6 +1207,15 @@ class _Factory:
         ch = self.check._make_tc(self.st, spec)
         self.log.append([self.st.cid(ch.test_case), list(spec["fs"])])
         return ch
+
+
+def _eff_final(eff, c0):
+    """content after a recorded TestCaseMutation.mutate (mirror of MutEff.final, content part)"""
+    cur = eff["chop"] if eff["chop"] is not None else c0
+    for key in ("del", "chg", "ins"):
+        if eff[key] is not None:
+            cur = eff[key]["after"]
+    return cur if eff["hasCall"] else eff["ins2"]["after"]
 
 
 def _copy_cause(src, dst):
